@@ -28,6 +28,7 @@ import (
 type c05Lit struct {
 	Data []byte `json:"data"`
 	Form string `json:"form"` // string | typed | concat | slice | array | ptrslice | ptrarray
+	Pad  int    `json:"pad,omitempty"` // array forms: the array is Pad elements longer than the listed ones (they stay zero)
 	Ctx  string `json:"ctx"`  // var | local | arg | ret | field | mapkey | mapval | closure | generic | elem | caselabel | const | arraylen
 }
 
@@ -122,11 +123,11 @@ func c05Render(lits []c05Lit) string {
 		case "slice":
 			expr, conv = "[]byte{"+byteList(l.Data)+"}", "%s"
 		case "array":
-			expr, conv = fmt.Sprintf("[%d]byte{%s}", n, byteList(l.Data)), "func() []byte { a := %s; return a[:] }()"
+			expr, conv = fmt.Sprintf("[%d]byte{%s}", n+l.Pad, byteList(l.Data)), "func() []byte { a := %s; return a[:] }()"
 		case "ptrslice":
 			expr, conv = "&[]byte{"+byteList(l.Data)+"}", "*(%s)"
 		case "ptrarray":
-			expr, conv = fmt.Sprintf("&[%d]byte{%s}", n, byteList(l.Data)), "(%s)[:]"
+			expr, conv = fmt.Sprintf("&[%d]byte{%s}", n+l.Pad, byteList(l.Data)), "(%s)[:]"
 		}
 		isStr := l.Form == "string" || l.Form == "concat"
 		v := fmt.Sprintf("v%d", i)
@@ -223,7 +224,11 @@ func c05Expected(lits []c05Lit) string {
 		if l.Ctx == "arraylen" && isStr {
 			fmt.Fprintf(&sb, "%d arraylen %d\n", i, len(l.Data)+1)
 		}
-		fmt.Fprintf(&sb, "%d %d %d\n", i, len(l.Data), fnv(l.Data))
+		data := l.Data
+		if l.Pad > 0 && (l.Form == "array" || l.Form == "ptrarray") {
+			data = append(append([]byte{}, l.Data...), make([]byte, l.Pad)...)
+		}
+		fmt.Fprintf(&sb, "%d %d %d\n", i, len(data), fnv(data))
 	}
 	return sb.String()
 }
@@ -464,6 +469,10 @@ func TestVerifC05Batch(t *testing.T) {
 			}
 			if (l.Form == "array" || l.Form == "ptrarray") && len(l.Data) == 0 {
 				l.Data = []byte{1}
+			}
+			if l.Form == "array" || l.Form == "ptrarray" {
+				// one array literal in three lists fewer elements than the array has
+				l.Pad = rapid.SampledFrom([]int{0, 0, 0, 0, 1, 7, 300}).Draw(t, "pad")
 			}
 			c.Lits = append(c.Lits, l)
 		}
